@@ -24,6 +24,8 @@ AtomToks(a) ==
     [] a = "*" -> << Tok("star", "*") >>
     [] a = "#i" -> << Hash("i", <<>>) >>
     [] a = ">" -> << Tok("gt", ">") >>
+    [] a = "+" -> << Tok("plus", "+") >>          \* combinators the library does not implement: no selector kind, so
+    [] a = "~" -> << Tok("tilde", "~") >>         \* the rule set whose prelude holds one is dropped (code and reference)
     [] a = "B1" -> << Tok("lbrace", "{"), Tok("ident", "color"), Tok("colon", ":"), Hash("040404", <<4, 4, 4>>), Tok("rbrace", "}") >>
     [] a = "," -> << Tok("comma", ",") >>
     [] a = "{" -> << Tok("lbrace", "{") >>
